@@ -125,7 +125,7 @@ func suiteGrammar(o *Out, thorough bool, seed int64) {
 
 // spaceOut replaces single spaces by random trivia that is not a line break, and adds trivia at the ends
 func spaceOut(r *rand.Rand, t string) string {
-	triv := []string{" ", "  ", "\t", " ", " \t "}
+	triv := []string{" ", "  ", "\t", "\u00a0", " \t "}
 	var sb strings.Builder
 	sb.WriteString(strings.Repeat(" ", r.Intn(2)))
 	for _, c := range t {
@@ -278,7 +278,7 @@ var spacingLex = []string{"a", "b1", "$c", "_", "1", "2.5", "1.", ".5", "1e3", "
 	"(", ")", "[", "]", ",", ".", "!.", "...", "=", "?", ":", "+", "-", "!", "!!", "~", "*", "/", "%", "<", "<=", ">", ">=",
 	"==", "===", "!=", "!==", "&&", "||", "??", "&", "|", "^", "é", "truex"}
 
-var separators = []string{"", " ", "\t", " ", "\n", " ", "  \t"}
+var separators = []string{"", " ", "\t", "\u00a0", "\n", "\u2028", "  \t", "\r\n", "\u0085"}
 
 func suiteSpacing(o *Out, thorough bool, seed int64) {
 	r := newRand(seed, "spacing")
@@ -308,7 +308,7 @@ func suiteSpacing(o *Out, thorough bool, seed int64) {
 				if j > 0 {
 					sep := separators[r.Intn(len(separators))]
 					// a line break may not precede . !. ( : keep those gaps free of line breaks
-					if strings.ContainsAny(sep, "\n\u2028") && (l == "." || l == "!." || l == "(") {
+					if strings.ContainsAny(sep, "\n\r\u2028\u2029\u0085") && (l == "." || l == "!." || l == "(") {
 						sep = " "
 					}
 					sb.WriteString(sep)
@@ -433,7 +433,7 @@ func tokenize(t string) []string {
 func suiteRanges(o *Out, thorough bool, seed int64) {
 	r := newRand(seed, "ranges")
 	g := &gen{r: r, idents: []string{"x", "y", "é"}, funcs: []string{"f", "g.h", "len"}, lits: []string{"1", "2.5", "'a'", "'é\\n'", "null", "true", "this"}}
-	triv := []string{" ", "\n", "\r\n", "\r", " ", " ", "\u0085", "\t", " ", ""}
+	triv := []string{" ", "\n", "\r\n", "\r", "\u2028", "\u2029", "\u0085", "\t", "\u00a0", ""}
 	n := 6000
 	if thorough {
 		n = 200000
@@ -527,7 +527,7 @@ func checkReparse(o *Out, text []byte, n formula.Expression) {
 
 func suiteErrPos(o *Out, thorough bool, seed int64) {
 	r := newRand(seed, "errpos")
-	pieces := []string{"a", "1", "(", ")", "[", "]", ",", "+", "*", "?", ":", ".", "#", "'x", "1a", "é", "'é'", "\n", "\r\n", "\r", " ", " ", "\u0085", " ", "\t", "1_", "0x", "\\"}
+	pieces := []string{"a", "1", "(", ")", "[", "]", ",", "+", "*", "?", ":", ".", "#", "'x", "1a", "é", "'é'", "\n", "\r\n", "\r", "\u2028", "\u2029", "\u0085", "\u00a0", "\t", "1_", "0x", "\\"}
 	n := 8000
 	if thorough {
 		n = 300000
